@@ -9,7 +9,8 @@
    exactly these. *)
 From Coq Require Import ZArith List Bool String.
 Import ListNotations.
-Require Import Grist.Lib.PyFloat Grist.Model.Values Grist.Proofs.Values_proofs.
+Require Import Grist.Lib.PyFloat Grist.Model.Values Grist.Model.ValuesPy Grist.Proofs.Values_proofs.
+Require Import GristGen.Usertypes_gen Grist.Proofs.Usertypes_bridge.
 Open Scope Z_scope.
 
 Definition C22_full : Prop := forall orc T v,
@@ -82,6 +83,45 @@ Theorem C22_refuted_idem_empty : forall orc,
   convert orc (TRefList (Str "T")) v = PList (LRecordList 0) [] /\
   convert orc (TRefList (Str "T")) (convert orc (TRefList (Str "T")) v) = PNone.
 Proof. intros orc; split; reflexivity. Qed.
+
+(* ---- the code itself ------------------------------------------------------------------------------
+   gen_* are GristGen.Usertypes_gen: translated by harness/ut2v.py from usertypes.py / objtypes.py on every run
+   (every do_convert and is_right_type, BaseColumnType.convert, the class hierarchy, is_int_short).  The bridging
+   obligations say that they ARE the hand model, for every oracle, type and value; a semantic edit of the source
+   makes one of them fail.  The property theorems are then restated about the generated functions. *)
+
+Theorem C22_bridge_do_convert : forall orc T v, same_res (gen_do_convert orc T v) (do_convert orc T v).
+Proof. exact bridge_do_convert. Qed.
+
+Theorem C22_bridge_is_right_type : forall orc T v, gen_is_right_type orc T v = Ok (is_right_type T v).
+Proof. exact bridge_is_right_type. Qed.
+
+Theorem C22_bridge_convert : forall orc T v, gen_convert_T orc T v = Ok (convert orc T v).
+Proof. exact bridge_convert. Qed.
+
+(* convert as coded never raises; an error comes back unchanged; anything else becomes a value the type's own
+   is_right_type (as coded) accepts, or a text -- never an error *)
+Theorem C22_code_convert_total : forall orc T v, rows_ok T v ->
+  exists w, gen_convert_T orc T v = Ok w /\
+    ((is_error v = true /\ w = v) \/
+     (is_error v = false /\ is_error w = false /\ (gen_is_right_type orc T w = Ok true \/ is_text w = true))).
+Proof.
+  intros orc T v H. exists (convert orc T v). split; [apply bridge_convert|].
+  destruct (convert_total orc T v H) as [[H1 H2]|[H1 [H2 [H3|H3]]]]; [left; auto| |right; auto].
+  right. rewrite bridge_is_right_type, H3. auto.
+Qed.
+
+(* converting the result of convert (as coded) again gives the same value, outside the three refuted cases *)
+Theorem C22_code_convert_idem_partial : forall orc T v w, rows_ok T v ->
+  gen_convert_T orc T v = Ok w ->
+  (forall s, is_text v = false -> fallback_text orc T v = Some s -> gen_convert_T orc T (PStr false s) = Ok (PStr false s)) ->
+  ~ degenerate T w ->
+  gen_convert_T orc T w = Ok w.
+Proof.
+  intros orc T v w Hr Hw Hfb Hd. rewrite bridge_convert in Hw. inversion Hw; subst w.
+  rewrite bridge_convert. f_equal. apply convert_idem; auto.
+  intros s H1 H2. specialize (Hfb s H1 H2). rewrite bridge_convert in Hfb. inversion Hfb as [Heq]. rewrite Heq. exact Heq.
+Qed.
 
 (* ---- non-vacuity ---------------------------------------------------------------------------- *)
 
